@@ -65,6 +65,8 @@ def do_block(job):
                 extra[k] = extra.get(k, 0) + v
         if res.discarded:
             discarded[res.discarded] = discarded.get(res.discarded, 0) + 1
+            if res.discarded.startswith("harness_exception") and len(out.setdefault("harness_traces", [])) < 2:
+                out["harness_traces"].append({"run": idx, "trace": res.extra.get("_harness_trace", "")})
         if job.get("want_all_digests"):
             out["all_digests"].append([idx, res.digest])
         if res.interesting and not res.discarded:
